@@ -1,7 +1,7 @@
 (* Properties/C05.v — Client returns only authentic replies; bad datagrams are
    counted, not trusted.  H is any hash (the authenticity predicate is C03's). *)
 From Radius Require Import Base.Bytes Base.Res Model.Attrs Model.Packet Model.Client
-  Spec.C01 Spec.C03 Spec.C05 Proofs.Oracles Proofs.Client.
+  Spec.C01 Spec.C03 Spec.C05 Proofs.Oracles Proofs.Client Proofs.ExchangeShape.
 Open Scope nat_scope.
 
 Section S.
@@ -68,9 +68,15 @@ Example C05_example :
   end.
 Proof. vm_compute. exact I. Qed.
 
+(* the receive loop as written: read, then count one error per datagram that does not parse or is not authentic, test
+   the budget after counting, return the first reply that passes (Proofs/ExchangeShape.v) *)
+Theorem C05_code_order : exchange_order.
+Proof. exact exchange_order_holds. Qed.
+
 Print Assumptions C05_exchange_recv_spec.
 Print Assumptions C05_acceptable_means_authentic.
 Print Assumptions C05_returns_only_acceptable.
 Print Assumptions C05_returns_first_acceptable.
 Print Assumptions C05_fails_iff_budget.
 Print Assumptions C05_zero_budget_never_fails.
+Print Assumptions C05_code_order.
